@@ -95,10 +95,10 @@ def run(ctx):
     files = spec_files(ctx)
     behs = []
     # (M) exhaustive: every crash point of every small history; one witness per crash class
-    for cfg in (["MC_quick.cfg"] if q else ["MC_quick.cfg", "MC_big.cfg", "MC_big2.cfg"]):
+    for cfg in (["MC_quick.cfg"] if q else ["MC_quick.cfg", "MC_k1.cfg", "MC_big.cfg", "MC_big2.cfg"]):
         if not ctx.want(cfg[:-4]):
             continue
-        mc = ctx.tlc("crash", "Crash", cfg, workers=1 if cfg == "MC_quick.cfg" else 8, files=files, timeout=3000)
+        mc = ctx.tlc("crash", "Crash", cfg, workers=1 if cfg in ("MC_quick.cfg", "MC_k1.cfg") else 8, files=files, timeout=3000)
         ctx.account(mc)
         ctx.log("%s: %d generated / %d distinct; %d behaviours emitted" % (cfg, mc.generated, mc.distinct, len(mc.emitted)))
         behs += mc.emitted
@@ -122,7 +122,7 @@ def run(ctx):
     else:
         rnd.shuffle(full)
         rnd.shuffle(part)
-        full, part = full[:30], part[:250]
+        full, part = full[:20], part[:250]
     cases = full + part
     if not cases:
         raise Exception("no behaviours")
